@@ -415,7 +415,7 @@ Proof.
   set (dt := fun t => match t with TScalar p => default_scalar p | TMsg j0 => default_msg Dd sc j0 end).
   pose proof (schema_ok_fields sc j fs Hs En) as Hok. pose proof (schema_ok_tags sc j fs Hs En) as Htags.
   assert (Hnd : nodupZ (flat_map field_tags fs) = true).
-  { unfold schema_ok in Hs. rewrite forallb_forall in Hs. pose proof (nth_error_In _ _ En) as Hin. specialize (Hs fs Hin).
+  { unfold schema_ok in Hs. apply andb_prop in Hs. apply proj1 in Hs. rewrite forallb_forall in Hs. pose proof (nth_error_In _ _ En) as Hin. specialize (Hs fs Hin).
     unfold msgdesc_ok in Hs. apply andb_prop in Hs. tauto. }
   assert (IH' : forall j0 e Dd0, wt_msg dv sc j0 e = true -> lossless edv dv sc j0 e -> zlen (enc_msg edv dv sc j0 e) < two64 ->
                 (dv <= Dd0)%nat -> spec_merge_msg ds sc j0 (default_msg Dd0 sc j0) (enc_msg edv dv sc j0 e) = Some e).
